@@ -199,10 +199,10 @@ impl Reporter {
             eprintln!("MACHINERY cannot write evidence {evpath}: {e}");
             return 2;
         }
-        if machinery_errors > 0 {
-            2
-        } else if new_violations > 0 {
+        if new_violations > 0 {
             1
+        } else if machinery_errors > 0 {
+            2
         } else {
             0
         }
